@@ -34,8 +34,8 @@ type ReverseAnchoredSearcher struct {
 	reverseNFA    *nfa.NFA
 	reverseDFA    *lazy.DFA
 	pikevm        *nfa.PikeVM
-	forwardPikevm *nfa.PikeVM // For empty string matching (reverse NFA has issues with empty)
-	revCachePool  sync.Pool   // Pool of *lazy.DFACache for thread-safe reverse DFA access
+	forwardPikevm *pooledPikeVM // For empty string matching (reverse NFA has issues with empty)
+	revCachePool  sync.Pool     // Pool of *lazy.DFACache for thread-safe reverse DFA access
 }
 
 // NewReverseAnchoredSearcher creates a reverse searcher from forward NFA.
@@ -65,7 +65,7 @@ func NewReverseAnchoredSearcher(forwardNFA *nfa.NFA, config lazy.Config) (*Rever
 
 	// Create forward PikeVM for empty string matching
 	// Reverse NFA has issues with empty strings and certain alternations
-	forwardPikevm := nfa.NewPikeVM(forwardNFA)
+	forwardPikevm := newPooledPikeVM(forwardNFA)
 
 	s := &ReverseAnchoredSearcher{
 		reverseNFA:    reverseNFA,
